@@ -35,6 +35,7 @@ TCoreN0 == << [a |-> <<1, 1>>, b |-> <<2, 1>>, c |-> Z],
              [a |-> Z,        b |-> <<2, 1>>, c |-> <<1, 1>>] >>
 TCoreH0 == << {"a", "b"}, {"a", "c"}, {"a", "b"}, {"c"}, {"a", "b"}, {"b", "c"} >>
 TCoreTargets == {1, 5, 7, 10, 12}
+TCoreTargetsQ == {1, 7, 10, 12}
 TCoreTargetsProbe == {1, 5, 7}
 TCoreTargetsAll == 1..12
 
